@@ -287,15 +287,23 @@ func (w *World) DivisorNonZero(b *ssa.BinOp) Outcome {
 // AllocBound proves that a make() size is non-negative and bounded by a
 // constant (<= 2^17) or by a small multiple of an input length.
 func (w *World) AllocBound(n ssa.Value, at ssa.Instruction, inputs []ssa.Value) Outcome {
+	return w.AllocBoundSized(n, at, inputs, 1)
+}
+
+// AllocBoundSized bounds the allocation in BYTES: n elements of elemSize bytes.
+func (w *World) AllocBoundSized(n ssa.Value, at ssa.Instruction, inputs []ssa.Value, elemSize int64) Outcome {
+	if elemSize < 1 {
+		elemSize = 1
+	}
 	fi := w.Info(at.Parent())
 	c := fi.ctxBefore(at)
-	f := c.Lin(n)
+	f := c.Lin(n).ScaleI(elemSize)
 	if !c.Prove(lin.GE0(f)) {
 		return Outcome{Proved: false, Failed: c.Describe(lin.GE0(f)), Facts: c.FactStrings(lin.GE0(f), 16)}
 	}
 	lim := new(big.Int).Lsh(big.NewInt(1), 17)
 	if c.Prove(lin.LE(f, lin.KB(lim))) {
-		return Outcome{Proved: true, Goals: []string{fmt.Sprintf("0 <= %s <= 2^17", valName(n))}}
+		return Outcome{Proved: true, Goals: []string{fmt.Sprintf("0 <= %d·%s <= 2^17 bytes", elemSize, valName(n))}}
 	}
 	sum := lin.K(64)
 	for _, in := range inputs {
@@ -305,7 +313,7 @@ func (w *World) AllocBound(n ssa.Value, at ssa.Instruction, inputs []ssa.Value) 
 	if c.Prove(g) {
 		return Outcome{Proved: true, Goals: []string{c.Describe(g)}}
 	}
-	return Outcome{Proved: false, Failed: fmt.Sprintf("%s <= 2^17  or  <= 8·Σlen(inputs)+64", valName(n)), Facts: c.FactStrings(g, 16)}
+	return Outcome{Proved: false, Failed: fmt.Sprintf("%d·%s bytes <= 2^17  or  <= 8·Σlen(inputs)+64", elemSize, valName(n)), Facts: c.FactStrings(g, 16)}
 }
 
 // AddFact lets a rule-level conditional axiom add a fact (fact 11).
